@@ -148,9 +148,56 @@ class Raised(Exception):
         self.exc = exc
 
 
+_SIG_CACHE = {}
+# keywords that change what a numpy / scipy routine computes or where it writes: a model that merely absorbs them in **k would
+# silently compute something else
+_MEANINGFUL_KW = {"out", "where", "axis", "axes", "keepdims", "initial", "weights", "side", "sorter", "ddof", "mode", "casting", "minlength",
+                  "return_index", "return_inverse", "return_counts", "endpoint", "k", "loc", "scale", "size", "random_state", "density", "range", "bins",
+                  "left", "right", "period", "rowvar", "bias", "fweights", "aweights", "decimals", "a_min", "a_max", "rtol", "atol", "equal_nan"}
+
+
+def _swallowed_keywords(fn, kw):
+    """keywords of this call that the model would absorb in a **k it never looks at"""
+    import inspect
+    import dis
+    key = getattr(fn, "__func__", fn)
+    try:
+        info = _SIG_CACHE.get(key)
+    except TypeError:
+        return set()
+    if info is None:
+        info = (set(), False)
+        try:
+            sig = inspect.signature(fn)
+            named = {n for n, p in sig.parameters.items() if p.kind in (p.POSITIONAL_OR_KEYWORD, p.KEYWORD_ONLY)}
+            varkw = [n for n, p in sig.parameters.items() if p.kind == p.VAR_KEYWORD]
+            code = getattr(key, "__code__", None)
+            ignores = False
+            if varkw and code is not None:
+                # a model that reads its **k (k.get("dtype"), records kw, passes **kw on) implements the keywords it is given
+                ignores = not any(ins.opname in ("LOAD_FAST", "LOAD_DEREF", "LOAD_CLOSURE", "LOAD_FAST_CHECK", "LOAD_FAST_AND_CLEAR") and ins.argval == varkw[0]
+                                  for ins in dis.get_instructions(code)) and varkw[0] not in code.co_cellvars
+            info = (named, ignores)
+        except (TypeError, ValueError):
+            pass
+        try:
+            _SIG_CACHE[key] = info
+        except TypeError:
+            pass
+    named, ignores = info
+    if not ignores:
+        return set()
+    return {k for k in kw if k not in named and k in _MEANINGFUL_KW}
+
+
 def _lib(fn, args, kw):
     """call a library model; errors the modelled library raises become exceptions of the analysed program, a call the model's
     signature cannot bind is a modelling gap"""
+    if kw:
+        swallowed = _swallowed_keywords(fn, kw)
+        if swallowed:
+            raise Undecided("the library model %s does not implement the keyword%s %s" % (
+                getattr(fn, "__name__", "?"), "s" if len(swallowed) > 1 else "", ", ".join(sorted(swallowed))))
     try:
         return fn(*args, **kw)
     except (ValueError, IndexError, ZeroDivisionError, OverflowError) as ex:
